@@ -71,6 +71,26 @@ def main():
             if not np.allclose(dx, want, rtol=1e-9, atol=1e-9):
                 return dict(reproduced=True, call='%s derivative of Model(species=%r, reactions=%r) at %r' % (cls.__name__, declared, fixed, x0),
                             observed=dx.tolist(), expected=want.tolist())
+    # rates of either sign: a reversible reaction written as one net-rate general propensity, probed on both sides of its equilibrium
+    # (plain interface; the safe interface drops consumption at empty species by design)
+    for it in range(SPEC.get('signed_rounds', 30)):
+        kf, kr, kd = rng.uniform(0.2, 3), rng.uniform(0.2, 3), rng.uniform(0.1, 2)
+        order = rng.choice([['A', 'B'], ['B', 'A']])
+        M = Model(species=order, reactions=[(['A'], ['B'], 'general', {'rate': 'kf*A - kr*B'}), (['B'], [], 'massaction', {'k': kd})],
+                  parameters=[('kf', kf), ('kr', kr)], initial_condition_dict={'A': 1, 'B': 1})
+        idx = M.get_species2index()
+        itf = ModelCSimInterface(M)
+        itf.py_prep_deterministic_simulation()
+        for a, b in ((rng.uniform(0, 5), rng.uniform(0, 5)), (0.0, rng.uniform(1, 5)), (rng.uniform(1, 5), 0.0)):
+            x = np.zeros(2); x[idx['A']] = a; x[idx['B']] = b
+            dx = np.zeros(2)
+            itf.py_calculate_deterministic_derivative(x.copy(), dx, 0.0)
+            net = kf * a - kr * b
+            want = np.zeros(2); want[idx['A']] = -net; want[idx['B']] = net - kd * b
+            n += 1
+            if not np.allclose(dx, want, rtol=1e-9, atol=1e-9):
+                return dict(reproduced=True, call='derivative of A -> B with the net rate kf*A - kr*B (kf=%r, kr=%r), B -> 0 at rate %r*B, at A=%r, B=%r' % (kf, kr, kd, a, b),
+                            observed=dx.tolist(), expected=want.tolist())
     try:
         Model(species=['A', 'B'], reactions=[(['A'], ['B'], 'massaction', {'k': 'kf'})], initial_condition_dict={'A': 1})
         return dict(reproduced=True, call='Model with parameter kf without a value', observed='initialised', expected='ValueError')
